@@ -26,7 +26,7 @@ import torch
 
 from ..core import Ctx, MachineryError
 from ..dualcone_replay import eval_c04, work_c04, work_c04_big
-from ..dualcone_trace import exact_episodes, mgda_episode, mgda_episodes, validate_exact, validate_mgda
+from ..dualcone_trace import replay_raised, rerun_episode, report_raised, exact_episodes, mgda_episode, mgda_episodes, validate_exact, validate_mgda
 from ..par import pmap
 from ..tlc import run_tlc
 from .c03 import model_check
@@ -57,10 +57,12 @@ def run(ctx: Ctx, replay: str | None) -> None:
             for key, what in eval_c04(p["case"]):
                 if key != "__gap__":
                     ctx.violation(key, what, p)
+        elif p["kind"] == "raised":
+            replay_raised(ctx, p)
         elif p["kind"] == "mgda_trace":
             validate_mgda(ctx, [mgda_episode((p["J"], p["K"], 1))])
         else:
-            validate_exact(ctx, [p["episode"] | {"ep": 1}], PID)
+            validate_exact(ctx, [rerun_episode(p["episode"])], PID)
         return
 
     scns = model_check(ctx, PID)
@@ -119,6 +121,7 @@ def run(ctx: Ctx, replay: str | None) -> None:
     # C -> S: the KKT point accepted by TraceDualCone satisfies the cone constraint of the statement
     stats: dict = {}
     eps = exact_episodes(rng, 100 if ctx.tier == "quick" else 400, stats)
+    report_raised(ctx, stats)
     ctx.evaluations += 2 * len(eps)
     ctx.extra["trace_summary"] = validate_exact(ctx, eps, PID)
     for e in eps[:2]:
